@@ -124,12 +124,17 @@ Fixpoint run_1001 (n : nat) (idx : Z) (b0 : list Z) (S : schema) (root : list Z)
     match fs with
     | FZ 1 :: r =>
       match parse_path10 r with
-      | Some (p, FB sub :: FZ err :: FZ ex :: FB res :: FZ acc :: FB inp :: FB wit :: FB ali :: rest) =>
+      | Some (p, FB sub :: FZ nk :: FZ err :: FZ ex :: FB res :: FZ acc :: FB inp :: FB wit :: FB ali :: rest) =>
         if negb (immutable_ok b0 prev inp wit ali) then VBad (400 + idx) [FB b0; FB prev] else
         match path_type_lax S LSingular (TMsg root) p with
         | Some (LSingular, t) =>
+          if negb (nk =? kind_of_type t) then
+            (* an ill-typed node (API contract: the node has the type of the addressed element): an error, the buffer
+               unchanged; the dummy value makes the specified set fail at its type check *)
+            continue (judge idx S root m prev (OSet p (VList false [])) (CSet p sub nk) err ex res acc) rest
+          else
           match decode_elem S t sub with
-          | Some x => continue (judge idx S root m prev (OSet p x) (CSet p sub) err ex res acc) rest
+          | Some x => continue (judge idx S root m prev (OSet p x) (CSet p sub nk) err ex res acc) rest
           | None => VSkip
           end
         | _ => VSkip
@@ -193,7 +198,8 @@ Definition judge_load (sc : schema) (root b0 : list Z) (rec err : Z) (outb : lis
 
 Definition check_1002 (fs : list field) : verdict :=
   match parse_schema fs with
-  | Some (root, sc, [FB b0; FZ rec; FZ err; FB outb; FZ acc]) => judge_load sc root b0 rec err outb acc
+  | Some (root, sc, [FB b0; FZ rec; FZ err; FB outb; FZ acc; FB rnow; FB rthen]) =>
+    if negb (bytes_eqb rnow rthen) then VBad 210 [FB rthen] else judge_load sc root b0 rec err outb acc
   | _ => VBad 99 []
   end.
 
@@ -201,7 +207,8 @@ Definition check_1002 (fs : list field) : verdict :=
    a fresh tree (the model has no state to go stale): same judgement as 1002 against the last message *)
 Definition check_1003 (fs : list field) : verdict :=
   match parse_schema fs with
-  | Some (root, sc, [FB bA; FB bB; FZ recA; FZ recB; FZ mode; FZ err; FB outb; FZ acc]) =>
+  | Some (root, sc, [FB bA; FB bB; FZ recA; FZ recB; FZ mode; FZ err; FB outb; FZ acc; FB rnow; FB rthen]) =>
+    if negb (bytes_eqb rnow rthen) then VBad 310 [FB rthen] else
     let bl := if mode =? 2 then bA else bB in
     let recl := if mode =? 2 then recA else recB in
     let stale := known_reuse sc root bA bB recA recB mode err outb in
